@@ -122,6 +122,39 @@ pub fn cb_cases() -> Vec<AnyRule> {
     v
 }
 
+/// Dense sweeps of numeric fields that interact with each other (interval x bucket count,
+/// interval vs. the node's global window, duration x threshold): boundary behaviour often depends
+/// on divisibility relations between two fields, which a sparse product of boundary values misses.
+pub fn dense_cases() -> Vec<AnyRule> {
+    let mut v = vec![];
+    for strategy in [cb::BreakerStrategy::ErrorCount, cb::BreakerStrategy::ErrorRatio, cb::BreakerStrategy::SlowRequestRatio] {
+        for interval in [1u32, 2, 3, 10, 100, 999, 1000, 1001, 1024, 60_000] {
+            for buckets in [0u32, 1, 2, 3, 4, 6, 7, 9, 10, 16, 39, 48, 100, 333, 500, 600, 999, 1000, 1001, 2000, u32::MAX] {
+                v.push(AnyRule::Cb(cb::Rule { id: format!("cd{}", v.len()), resource: RES.into(), strategy, retry_timeout_ms: 100, min_request_amount: 1, stat_interval_ms: interval, stat_sliding_window_bucket_count: buckets, max_allowed_rt_ms: 5, threshold: 0.5 }));
+            }
+        }
+    }
+    for ctrl in [flow::ControlStrategy::Reject, flow::ControlStrategy::Throttling] {
+        for calc in [flow::CalculateStrategy::Direct, flow::CalculateStrategy::WarmUp] {
+            for interval in [1u32, 2, 3, 7, 100, 250, 499, 500, 501, 750, 999, 1000, 1001, 1500, 2000, 2500, 3000, 3500, 5000, 9500, 9999, 10000, 10001, 10500, 20000, 60_000, 600_000] {
+                for threshold in [0.3, 1.0, 3.0, 1000.0] {
+                    v.push(AnyRule::Flow(flow::Rule { id: format!("fd{}", v.len()), resource: RES.into(), calculate_strategy: calc, control_strategy: ctrl, threshold, stat_interval_ms: interval, warm_up_period_sec: 3, warm_up_cold_factor: 3, max_queueing_time_ms: 5, ..Default::default() }));
+                }
+            }
+        }
+    }
+    for ctrl in [hotspot::ControlStrategy::Reject, hotspot::ControlStrategy::Throttling] {
+        for duration in [1u64, 2, 3, 7, 60, 3600, 1 << 40] {
+            for threshold in [1u64, 2, 3, 7, 999, 1000, 1001, 1_000_000, u64::MAX / 2000, u64::MAX] {
+                for burst in [0u64, 1, u64::MAX / 2] {
+                    v.push(AnyRule::Hs(hotspot::Rule { id: format!("hd{}", v.len()), resource: RES.into(), metric_type: hotspot::MetricType::QPS, control_strategy: ctrl, threshold, burst_count: burst, duration_in_sec: duration, max_queueing_time_ms: 5, ..Default::default() }));
+                }
+            }
+        }
+    }
+    v
+}
+
 pub fn hs_cases() -> Vec<AnyRule> {
     let mut v = vec![];
     use hotspot::{ControlStrategy as Co, MetricType as M};
@@ -369,6 +402,7 @@ pub fn all_cases() -> Vec<AnyRule> {
     v.extend(cb_cases());
     v.extend(hs_cases());
     v.extend(iso_sys_cases());
+    v.extend(dense_cases());
     v
 }
 
@@ -404,7 +438,7 @@ pub fn run(o: &Opts, stats: &mut Stats) -> Option<usize> {
                     continue;
                 }
                 // quick: a covering subset (every 11th unit: coprime with the 6 path x existing variants)
-                if idx % stride != 0 {
+                if idx % stride != 0 && !id_of(c).contains('d') {
                     continue;
                 }
                 stats.configs += 1;
